@@ -75,7 +75,7 @@ check('C03', 'llparser',
       'bound parsed under a step budget counted through the parser debug hooks (no wall-clock verdicts).',
       _LLNOTE, 'DESIGN.md section 4, C03')
 
-ENGINES['color'] = ('specs/color', ['C08', 'C09'],
+ENGINES['color'] = ('specs/color', ['C08', 'C09', 'C14'],
                     'CHText.tla (A-spec lifted str operations + I-spec chunk list, refinement invariants, history '
                     'emission), SGR.tla / SGRCases.tla / SGRJudge.tla (terminal model, configuration builder, trace '
                     'acceptor); drivers harness/drivers/c08.py, c09.py, harness/sgr.py')
@@ -99,6 +99,19 @@ check('C09', 'color',
       'strip_colors == plain text, bytes == text); invalid values must raise ValueError.',
       'Trusted: TLC, the tokeniser in harness/sgr.py. Lists/floats as colour values are outside the documented domain.',
       'DESIGN.md section 4, C09')
+
+check('C14', 'color',
+      'TLA+ spec with declarative Resolve (A-spec) and the incremental syntax map / resolution loop / palette cache '
+      '(I-spec); TLC checks equality after every registration for all splits and orders; every emitted behaviour is '
+      'replayed on a real ColorsConfig and palettes',
+      'TLC enumerates all description sets over 2 ids (6 colour parts x 3 modifier sets x 4 parents, built-in and '
+      'unknown parents) with every split into initial configuration and ordered batches, direct or through palette '
+      'classes, with conflicting re-declarations, and checks ImplMatchesSpec, OrderIndependent, CacheCoherent; '
+      '3 ids exhaustively in the thorough tier and by simulation in quick.  Each behaviour is replayed (flat and '
+      'nested dicts, colour and no_color): get_color, global palette, component palettes re-obtained after every '
+      'step, make_report pending marks.',
+      'Trusted: TLC, harness/sgr.py. One description per id; reference chains acyclic.',
+      'DESIGN.md section 4, C14')
 
 ALL = ['C%02d' % i for i in range(1, 21)]
 
